@@ -31,6 +31,31 @@ def gen_base(seed, i):
     if dim == 3 and rng.uniform() < 0.4:
         feats.append("hdiff")
     net = netgen.gen_net(rng, dim=dim, noise=True, features=tuple(feats))
+    if dim == 3 and rng.uniform() < 0.35:
+        # reduction of zenith angles / directions to the ellipsoid (mean latitude given): the corrections refer to the
+        # centroid of the network, so every re-expression must still give the same adjustment
+        net.params["latitude"] = "%.4f" % float(rng.uniform(20.0, 75.0))
+        feats.append("latitude")
+        if rng.uniform() < 0.7:
+            # a few points without height (sighted by directions and distances only): the numbers of points with
+            # xy and with z differ
+            sts = [c for c in net.clusters if c.kind == "obs" and c.station is not None]
+            for k in range(int(rng.integers(1, 3))):
+                pid = "T%d" % (k + 1)
+                E0 = [q.E for q in net.points.values()]; N0 = [q.N for q in net.points.values()]
+                net.points[pid] = netgen.Pt(pid, float(rng.uniform(min(E0), max(E0))), float(rng.uniform(min(N0), max(N0))),
+                                            0.0, "free", "none")
+                for c in [sts[int(j)] for j in rng.permutation(len(sts))[:3]]:
+                    for kind, sd in (("direction", 10.0), ("distance", 5.0)):
+                        o = netgen.Obs(kind, c.station, pid, stdev=sd)
+                        o.true = netgen.model_value(net, c, o)
+                        o.val = o.true + float(rng.normal(0, sd)) * (1e-3 if kind == "distance" else 1e-4)
+                        if c.cov is not None:
+                            C = np.array(c.cov["C"]); n0 = C.shape[0]
+                            C2 = np.zeros((n0 + 1, n0 + 1)); C2[:n0, :n0] = C; C2[n0, n0] = sd ** 2
+                            c.cov = dict(band=c.cov["band"], C=C2)
+                        c.obs.append(o)
+            feats.append("2d-points-in-3d")
     if dim >= 2 and rng.uniform() < 0.4:
         # sightings to a reference mark that is not a point of the network: gama leaves them out (passive
         # observations in the middle of a cluster); every re-expression must still give the same adjustment
@@ -57,7 +82,10 @@ def transformations(rng, net, tier):
     ids = list(net.points)
     # 1 translation
     mag = float(rng.choice([1e3, 1e5, 7e6]))
-    yield "translation", net, netgen.Frame(shift=(mag * rng.uniform(0.5, 1), -mag * rng.uniform(0.5, 1), rng.uniform(-500, 3000))), None
+    # (with the reduction to the ellipsoid switched on heights are distances from the ellipsoid, i.e. content: only the
+    # horizontal coordinates are translated then)
+    dz = 0.0 if "latitude" in net.params else rng.uniform(-500, 3000)
+    yield "translation", net, netgen.Frame(shift=(mag * rng.uniform(0.5, 1), -mag * rng.uniform(0.5, 1), dz)), None
     # 2 circle zero
     v = net.clone()
     for cl in v.clusters:
